@@ -6,7 +6,7 @@ from .common import Exc
 from .url_grammar import gen_url, call, idna_label
 from .norm_common import random_opts, DEFAULTS, OPT_NAMES, compare_normalize
 
-THEOREMS = ['C05_never_raises', 'C05_unparseable_unchanged'] + ["(main statement: harness deciders on the implementation + model correspondence — partial)"]
+THEOREMS = ['C05_never_raises', 'C05_unparseable_unchanged', 'C05_query_only_deletes', 'C05_query_keeps_order'] + ["(main statement: harness deciders on the implementation + model correspondence — partial)"]
 REGEXES = ["IRRELEVANT_SUBDOMAIN_RE", "IRRELEVANT_SUBDOMAIN_AMP_RE", "IRRELEVANT_QUERY_RE", "IRRELEVANT_QUERY_AMP_RE", "AMP_SUFFIXES_RE", "MISTAKES_RE", "CONTROL_CHARS_RE"]
 IRRELEVANT_LABELS = ("www", "mobile", "m", "amp")
 
